@@ -32,6 +32,12 @@ var configCmd = &cobra.Command{
 		if len(dotSplit) != 2 {
 			return ErrInvalidArgs
 		}
+		// what the file format cannot hold is refused here instead of being written and misread by every later
+		// command: an empty section or key ("[]" is no section header), a key with '=' (the line is split at the
+		// first '='), a line feed anywhere (one setting is one line)
+		if dotSplit[0] == "" || dotSplit[1] == "" || strings.Contains(dotSplit[1], "=") || strings.Contains(args[0]+args[1], "\n") {
+			return ErrInvalidArgs
+		}
 
 		// get global flag
 		isGlobal, err := cmd.Flags().GetBool("global")
